@@ -196,7 +196,7 @@ def _switch_cases():
 
 def generate(rng, n):
     out = (_switch_cases() + R.linebreak_like_cases() + _blank_line_files() + _multi_defect() + _grid() + _typed_grid()
-           + [c for c in R.typed_special_cases() if c["shape"]["defect"] == "format-text"])
+           + [c for c in R.typed_special_cases() if c["shape"]["defect"] in ("format-text", "cr-text")])
     while len(out) < n:
         out.append(R.gen_reader_case(rng, rng.choice(["valid", "defect", "defect", "adversarial"])))
     return _with_channel(out)
